@@ -8,10 +8,12 @@ for l in open('/verif/work/seeded_results.jsonl'):
     name = re.sub(r'-retest\d*$', '', r['name'])
     res.setdefault(name, []).append(r)
 NEEDS = json.load(open('/verif/scripts/seed_needs.json')) if os.path.exists('/verif/scripts/seed_needs.json') else {}
-for d in sorted(glob.glob('/tmp/mut/C*.out/[AB]') + glob.glob('/tmp/mut/R2C*.out/[AB]')):
-    pid = re.search(r'/((?:R2)?C\d+)\.out', d).group(1)
+for d in sorted(glob.glob('/tmp/mut/C*.out/[AB]') + glob.glob('/tmp/mut/R[23]C*.out/[AB]')):
+    pid = re.search(r'/((?:R[23])?C\d+)\.out', d).group(1)
     var = os.path.basename(d)
     name = f'{pid}-{var}'
+    if os.environ.get('ONLY') and not re.match(os.environ['ONLY'], name):
+        continue
     if not os.path.exists(f'{d}/patch.diff'):
         continue
     v = subprocess.run(['/verif/scripts/verify_seed.py', pid, var], capture_output=True, text=True).stdout.splitlines()
@@ -34,7 +36,7 @@ for d in sorted(glob.glob('/tmp/mut/C*.out/[AB]') + glob.glob('/tmp/mut/R2C*.out
             if x['exit'] == 1:
                 detected_by.append({'property': p, 'labels': x.get('labels', [])})
     meta = {
-        'breaks': pid,
+        'breaks': re.sub(r"^R[23]", "", pid),
         'origin': 'independent sub-agent given only the property text and a scratch worktree',
         'needs_to_manifest': NEEDS.get(name, 'see notes.md'),
         'verified': {k: ver[k] for k in ('demo_passes_on_clean', 'patch_applies', 'builds', 'demo_fails_with_patch', 'baseline_84_pass_with_patch')},
